@@ -535,6 +535,12 @@ def families() -> t.List[t.Tuple[str, str, str, t.Callable[[int], str], t.List[i
          lambda d: _search_pdu((lambda f: [f := _tlv(0xA0, _tlv(0x87, b"cn") + f) for _ in range(d)][-1])(_tlv(0x87, b"sn"))).hex(), depths),
         ("receive nested or filters, nested child first, valid", "recv", "depth",
          lambda d: _search_pdu((lambda f: [f := _tlv(0xA1, f + _tlv(0x87, b"cn")) for _ in range(d)][-1])(_tlv(0x87, b"sn"))).hex(), depths),
+        ("receive nested unknown trailing element", "recv", "depth",
+         lambda d: _tlv(0x30, _tlv(2, b"\x01") + _tlv(0x77, _tlv(0x80, b"1.2") + (lambda f: [f := _tlv(0xA5, f) for _ in range(d)][-1])(b""))).hex(), depths),
+        ("receive nested unknown element after the operation", "recv", "depth",
+         lambda d: _tlv(0x30, _tlv(2, b"\x01") + _tlv(0x77, _tlv(0x80, b"1.2")) + (lambda f: [f := _tlv(0xA5, f) for _ in range(d)][-1])(b"")).hex(), depths),
+        ("receive repeated controls elements", "recv", "size",
+         lambda n: _tlv(0x30, _tlv(2, b"\x01") + _tlv(0x77, _tlv(0x80, b"1.2")) + _tlv(0xA0, _tlv(0x30, _tlv(4, b"1.2"))) * n).hex(), sizes),
         ("receive many controls", "recv", "size", lambda n: _tlv(0x30, _tlv(2, b"\x01") + _tlv(0x42, b"") + _tlv(0xA0, _tlv(0x30, _tlv(4, b"1.2")) * n)).hex(), sizes),
     ]
     return F
